@@ -172,6 +172,25 @@ def place : Location → Location
 def registerAll (tps : List TP) : List (Option Trigger) :=
   if addCustomSkipsNone then (tps.filterMap TP.build).map some else tps.map TP.build
 
+/-- a registration in code as `add_custom` receives it: READY-MADE metric definitions (no protobuf enum conversion on
+    this path: the type is whatever text the program wrote), the uuid the registration gets as `id`.  Argument values
+    are TEXT here (`Args`); `register_tracepoint` does not check that — non-text values are outside this model. -/
+structure RegTP where
+  id : String
+  path : String
+  line : Int
+  args : Args
+  watches : List String
+  metrics : List MetricDefinition
+deriving Repr
+
+/-- `add_custom`: `build_trigger(tp_id, path, line, args, watches, metrics)` on the arguments as given -/
+def RegTP.build (r : RegTP) : Option Trigger := build_trigger r.id r.path r.line r.args r.watches r.metrics
+
+/-- the custom list after registering `rs` in order, with the `add_custom` guard read from the source -/
+def registerCode (rs : List RegTP) : List (Option Trigger) :=
+  if addCustomSkipsNone then (rs.filterMap RegTP.build).map some else rs.map RegTP.build
+
 /-- which actions run when an event reaches location `l`: all actions of every installed trigger at `l` -/
 def actionsAt (installed : List Trigger) (l : Location) : List LocationAction :=
   (installed.filter (fun g => g.location == l)).flatMap (·.actions)
